@@ -246,6 +246,7 @@ theorem reach_owned {s : S} (hr : Reach s) : Owned s.aq ∧ Owned s.eq := by
   | nops k _ ih => exact ih
   | newItem _ ih => exact ih
   | noYields _ ih => exact ih
+  | setBody b r _ ih => exact ih
   | observe o _ _ ih => exact ih
 
 /-- no sender is inside a call -/
@@ -378,23 +379,48 @@ theorem AfterBody.notFast {pc : MPc} (h : AfterBody pc) : ¬ FastPc pc := by
 theorem AfterBody.notDrain {pc : MPc} (h : AfterBody pc) : ¬ DrainPc pc := by
   cases pc <;> first | exact False.elim h | exact fun h => h
 
-theorem afterBody_finishPass (s : S) (v : BitVec 32) : AfterBody (finishPass s v).mpc := trivial
-theorem afterBody_returned (s : S) (r : Ret) : AfterBody (returned s r).mpc := by
-  unfold returned; split <;> trivial
-theorem afterBody_bodyOf (s : S) (c : Fid) : AfterBody (bodyOf s c).mpc := by
+/-- where the dispatch of a fibre leaves the main context: at the end of the pass, inside the handler, or -- a scripted
+    body that calls `fibre_run`/`fibre_kill` -- at the top of a fresh drain loop -/
+def BodyCont : Cont → Prop
+  | .brun _ | .bkill _ => True
+  | _ => False
+
+def BodyPost (s' : S) : Prop := AfterBody s'.mpc ∨ ∃ c, BodyCont c ∧ s'.mpc = .recv c ∧ s'.drainFrom = s'.aq.received
+
+theorem inv6_of_bodyPost {s' : S} (h : BodyPost s') (hok : AqRecvOk s'.mpc s'.aq.recv) : Inv6 s' := by
+  rcases h with h | ⟨c, _, hc, hd⟩
+  · exact inv6_vacuous h.notFast h.notDrain
+  · rw [hc] at hok
+    have hidle : s'.aq.recv = .idle := hok
+    refine ⟨fun hf => by rw [hc] at hf; exact False.elim hf, fun _ => ⟨?_, fun k k1 k2 => ?_⟩⟩
+    · rw [processed_idle hidle, hd]; exact Nat.le_refl _
+    · rw [processed_idle hidle] at k2; omega
+
+theorem bodyPost_finishPass (s : S) (v : BitVec 32) : BodyPost (finishPass s v) := Or.inl trivial
+theorem bodyPost_returned (s : S) (r : Ret) : BodyPost (returned s r) := by
+  unfold returned; split <;> exact Or.inl trivial
+theorem bodyPost_bodyStep (s : S) : BodyPost (bodyStep s) := by
+  unfold bodyStep
+  split
+  · exact bodyPost_returned _ _
+  · rename_i g r _; exact Or.inr ⟨.brun g, trivial, rfl, rfl⟩
+  · rename_i g r _; exact Or.inr ⟨.bkill g, trivial, rfl, rfl⟩
+theorem bodyPost_bodyOf (s : S) (c : Fid) : BodyPost (bodyOf s c) := by
   unfold bodyOf
   split
-  · trivial
-  · split <;> exact afterBody_returned _ _
-  · split <;> exact afterBody_returned _ _
-  · exact afterBody_returned _ _
-theorem afterBody_dispatch (s : S) : AfterBody (dispatch s).mpc := by
+  · exact Or.inl trivial
+  · split <;> exact bodyPost_returned _ _
+  · split <;> exact bodyPost_returned _ _
+  · exact bodyPost_returned _ _
+  · exact bodyPost_bodyStep _
+theorem bodyPost_dispatch (s : S) : BodyPost (dispatch s) := by
   unfold dispatch; split
-  · exact afterBody_bodyOf _ _
-  · trivial
-theorem afterBody_afterUpdate (s : S) : AfterBody (afterUpdate s).mpc := afterBody_dispatch _
+  · exact bodyPost_bodyOf _ _
+  · exact Or.inl trivial
+theorem bodyPost_afterUpdate (s : S) : BodyPost (afterUpdate s) := bodyPost_dispatch _
 
-theorem inv6_mainPlain {s : S} (h1 : Inv1 s) (h6 : Inv6 s) : Inv6 (mainPlain s) := by
+theorem inv6_mainPlain_aux {s : S} (h1 : Inv1 s) (h6 : Inv6 s) :
+    Inv6 (mainPlain s) ∨ BodyPost (mainPlain s) := by
   have hm := h1.mainAq
   unfold mainPlain
   split
@@ -407,22 +433,22 @@ theorem inv6_mainPlain {s : S} (h1 : Inv1 s) (h6 : Inv6 s) : Inv6 (mainPlain s) 
       simp only [startCall]
       unfold startNext
       split
-      · refine ⟨fun h => False.elim h, fun _ => ⟨?_, fun k k1 k2 => ?_⟩⟩
+      · refine Or.inl ⟨fun h => False.elim h, fun _ => ⟨?_, fun k k1 k2 => ?_⟩⟩
         · show s.aq.received ≤ processed s.aq; rw [processed_idle hm']; exact Nat.le_refl _
         · have k2' : k < processed s.aq := k2
           rw [processed_idle hm'] at k2'
           have k1' : s.aq.received ≤ k := k1
           omega
-      · exact ⟨fun _ => rfl, fun h => False.elim h⟩
+      · exact Or.inl ⟨fun _ => rfl, fun h => False.elim h⟩
     | run f =>
-      refine ⟨fun h => False.elim h, fun _ => ⟨?_, fun k k1 k2 => ?_⟩⟩
+      refine Or.inl ⟨fun h => False.elim h, fun _ => ⟨?_, fun k k1 k2 => ?_⟩⟩
       · show s.aq.received ≤ processed s.aq; rw [processed_idle hm']; exact Nat.le_refl _
       · have k2' : k < processed s.aq := k2
         rw [processed_idle hm'] at k2'
         have k1' : s.aq.received ≤ k := k1
         omega
     | kill f =>
-      refine ⟨fun h => False.elim h, fun _ => ⟨?_, fun k k1 k2 => ?_⟩⟩
+      refine Or.inl ⟨fun h => False.elim h, fun _ => ⟨?_, fun k k1 k2 => ?_⟩⟩
       · show s.aq.received ≤ processed s.aq; rw [processed_idle hm']; exact Nat.le_refl _
       · have k2' : k < processed s.aq := k2
         rw [processed_idle hm'] at k2'
@@ -434,8 +460,8 @@ theorem inv6_mainPlain {s : S} (h1 : Inv1 s) (h6 : Inv6 s) : Inv6 (mainPlain s) 
     have hm' : s.aq.recv = .idle := hm
     have hf := h6.fast (by rw [hpc]; trivial)
     split
-    · exact inv6_vacuous (afterBody_dispatch s).notFast (afterBody_dispatch s).notDrain
-    · refine ⟨fun h => False.elim h, fun _ => ⟨?_, fun k k1 k2 => ?_⟩⟩
+    · exact Or.inr (bodyPost_dispatch s)
+    · refine Or.inl ⟨fun h => False.elim h, fun _ => ⟨?_, fun k k1 k2 => ?_⟩⟩
       · show s.drainFrom ≤ processed s.aq; rw [processed_idle hm', hf]; exact Nat.le_refl _
       · have k2' : k < processed s.aq := k2
         rw [processed_idle hm'] at k2'
@@ -456,7 +482,7 @@ theorem inv6_mainPlain {s : S} (h1 : Inv1 s) (h6 : Inv6 s) : Inv6 (mainPlain s) 
         unfold processed
         rw [recv_from_hold s.aq sl k hr false, recv_received_busy s.aq false (by rw [hr]; simp) (by rw [hr]; simp)]
         exact hk.symm
-      refine ⟨fun h => False.elim h, fun _ => ⟨?_, fun k' k1 k2 => ?_⟩⟩
+      refine Or.inl ⟨fun h => False.elim h, fun _ => ⟨?_, fun k' k1 k2 => ?_⟩⟩
       · show s.drainFrom ≤ processed (step s.aq _); rw [hp1]; have := hd.1; omega
       · have k2' : k' < processed (step s.aq (.recv false)) := k2
         rw [hp1] at k2'
@@ -470,29 +496,34 @@ theorem inv6_mainPlain {s : S} (h1 : Inv1 s) (h6 : Inv6 s) : Inv6 (mainPlain s) 
         · exact (mem_runq_makeRunnable _ _).mpr (Or.inl (hd.2 k' k1' (by omega)))
     · -- NULL: leave the loop
       cases c with
-      | run f => exact inv6_vacuous (fun h => h) (fun h => h)
-      | kill f => exact inv6_vacuous (fun h => h) (fun h => h)
+      | run f => exact Or.inl <| inv6_vacuous (fun h => h) (fun h => h)
+      | kill f => exact Or.inl <| inv6_vacuous (fun h => h) (fun h => h)
       | pass1 =>
         simp only [afterDrain]
         split
-        · exact inv6_vacuous (afterBody_afterUpdate s).notFast (afterBody_afterUpdate s).notDrain
+        · exact Or.inr (bodyPost_afterUpdate s)
         · split
           · -- yielded: fibre_run(kernel.current) drains again, nothing else has changed
-            exact ⟨fun h => False.elim h, fun _ => hd⟩
-          · exact inv6_vacuous (fun h => h) (fun h => h)
-          · exact inv6_vacuous (afterBody_afterUpdate _).notFast (afterBody_afterUpdate _).notDrain
-          · exact inv6_vacuous (afterBody_afterUpdate s).notFast (afterBody_afterUpdate s).notDrain
-      | pass2 c => exact inv6_vacuous (afterBody_afterUpdate _).notFast (afterBody_afterUpdate _).notDrain
+            exact Or.inl ⟨fun h => False.elim h, fun _ => hd⟩
+          · exact Or.inl <| inv6_vacuous (fun h => h) (fun h => h)
+          · exact Or.inr (bodyPost_afterUpdate _)
+          · exact Or.inr (bodyPost_afterUpdate s)
+      | pass2 c => exact Or.inr (bodyPost_afterUpdate _)
+      | brun g => exact Or.inr (bodyPost_bodyStep _)
+      | bkill g => exact Or.inr (bodyPost_bodyStep _)
   · -- reld c
     rename_i c hpc
-    exact ⟨fun h => False.elim h, fun _ => h6.drain (by rw [hpc]; trivial)⟩
-  · exact inv6_vacuous (afterBody_afterUpdate _).notFast (afterBody_afterUpdate _).notDrain
+    exact Or.inl ⟨fun h => False.elim h, fun _ => h6.drain (by rw [hpc]; trivial)⟩
+  · exact Or.inr (bodyPost_afterUpdate _)
   · split
-    · exact inv6_vacuous (fun h => h) (fun h => h)
-    · exact inv6_vacuous (afterBody_returned s _).notFast (afterBody_returned s _).notDrain
-  · exact inv6_vacuous (fun h => h) (fun h => h)
-  · exact inv6_vacuous (fun h => h) (fun h => h)
-  · exact h6
+    · exact Or.inl <| inv6_vacuous (fun h => h) (fun h => h)
+    · exact Or.inr (bodyPost_returned s _)
+  · exact Or.inl <| inv6_vacuous (fun h => h) (fun h => h)
+  · exact Or.inl <| inv6_vacuous (fun h => h) (fun h => h)
+  · exact Or.inl h6
+
+theorem inv6_mainPlain {s : S} (h1 : Inv1 s) (h6 : Inv6 s) : Inv6 (mainPlain s) :=
+  (inv6_mainPlain_aux h1 h6).elim id (fun h => inv6_of_bodyPost h (inv1_mainPlain h1).mainAq)
 
 theorem inv6_same {s s' : S} (h6 : Inv6 s) (haq : s'.aq = s.aq) (hk : s'.k = s.k) (hm : s'.mpc = s.mpc)
     (hd : s'.drainFrom = s.drainFrom) : Inv6 s' :=
@@ -515,6 +546,7 @@ theorem reach_inv6 {s : S} (hr : Reach s) : Inv6 s := by
   | nops k _ ih => exact inv6_same ih rfl rfl rfl rfl
   | newItem _ ih => exact inv6_same ih rfl rfl rfl rfl
   | noYields _ ih => exact inv6_same ih rfl rfl rfl rfl
+  | setBody b r _ ih => exact inv6_same ih rfl rfl rfl rfl
   | observe o _ _ ih => exact inv6_same ih rfl rfl rfl rfl
 
 /-! ### what the scheduler sees when it looks at the atomic run queue -/
